@@ -35,3 +35,13 @@ func panicOrigin(stack string) string {
 	}
 	return ""
 }
+
+// tapeHash identifies the generated workload (plan) of a run.
+func tapeHash(rec []uint32) uint64 {
+	h := uint64(1469598103934665603)
+	for _, v := range rec {
+		h ^= uint64(v)
+		h *= 1099511628211
+	}
+	return h
+}
